@@ -1,5 +1,6 @@
 import Driver.Util
 import RPVerif.Model.Bridge
+import RPVerif.Gen.Bridge
 open Lean RPVerif.Bridge
 
 namespace Driver.Bridge
@@ -32,6 +33,15 @@ def handle (j : Json) : Json :=
     let ds := localPub sides (jnat j "fuel") (jnat j "side") (msgOf (jget j "msg"))
     -- deliveries per side, sorted by side (delivery order across sides is not specified)
     jl (sides.map (fun t => jl [jn t, jl ((ds.filter (fun d => d.1 = t)).map (fun d => jmsg d.2))]))
+  else if op == "advance" then
+    -- the state update an advance() of class `cls` publishes: its fwd flag
+    let dflt := match RPVerif.Gen.advanceFwdDefaults.find? (fun e => e.1 = jstr j "cls") with
+                | some e => e.2
+                | none   => false
+    let arg : Option Bool := match j.getObjVal? "fwd" with
+                             | .ok (.bool b) => some b
+                             | _ => none
+    jmsg (advanceMsg dflt arg (jnat j "body"))
   else Json.str "bad-op"
 
 end Driver.Bridge
